@@ -839,7 +839,7 @@ class ArgumentParser(ParserDeprecations, ActionsContainer, ArgumentLinking, argp
                             value = action.serialize(value, dump_kwargs=dump_kwargs)
                     cfg.update(value, action_dest)
 
-    def _dump_delete_default_entries(self, subcfg, subdefaults):
+    def _dump_delete_default_entries(self, subcfg, subdefaults, prefix: Optional[str] = ""):
         for key in list(subcfg.keys()):
             if key in subdefaults:
                 val = subcfg[key]
@@ -856,7 +856,12 @@ class ArgumentParser(ParserDeprecations, ActionsContainer, ArgumentLinking, argp
                 if val == default:
                     del subcfg[key]
                 elif isinstance(val, dict) and isinstance(default, dict):
-                    self._dump_delete_default_entries(val, default)
+                    if class_object_val:
+                        self._dump_delete_default_entries(val, default, None)
+                    elif prefix is None or _find_action(self, prefix + key) is None:
+                        # only groups of nested arguments are pruned key by key: a dict-typed value is replaced as a
+                        # whole when parsed, so removing single items from it would not re-parse to the same value
+                        self._dump_delete_default_entries(val, default, None if prefix is None else prefix + key + ".")
                     if class_object_val and class_object_val.get("init_args") == {}:
                         del class_object_val["init_args"]
 
